@@ -2,6 +2,7 @@ package server
 
 import (
 	"io/fs"
+	"runtime"
 	"testing"
 
 	"github.com/basecamp/kamal-proxy/internal/pages"
@@ -16,6 +17,9 @@ func TestVerifSim(t *testing.T) {
 	out := verifOpenOut(t)
 	defer out.close()
 	vMakeAssets(t)
+	// One P: goroutines interleave only where they block (or at armed yields),
+	// so every lock region of the code is one atomic step of the recorded trace.
+	defer runtime.GOMAXPROCS(runtime.GOMAXPROCS(1))
 	for i, sc := range cases {
 		res := vRunScenario(t, sc)
 		res["i"] = i
